@@ -3,6 +3,7 @@ package main
 import (
 	"cmp"
 	"fmt"
+	"os"
 	"slices"
 	"strconv"
 	"strings"
@@ -234,6 +235,28 @@ func c11words(k, maxLen int, canon bool) [][]int {
 	return out
 }
 
+// c11shard tells which slice of an exhaustive enumeration this generator run
+// emits.  tools/check.py starts VERIF_SHARDS generator processes (default 8
+// thorough, 2 quick) with consecutive seeds, so "index mod shards == seed mod
+// shards" partitions the enumeration among them without repetition.  Run by
+// hand (any other argument shape) it emits everything.
+func c11shard(g *G) (me, k int) {
+	k = g.Scale(2, 8)
+	if v := os.Getenv("VERIF_SHARDS"); v != "" {
+		if n, err := strconv.Atoi(v); err == nil && n > 0 {
+			k = n
+		}
+	}
+	if len(os.Args) < 4 || os.Getenv("VERIF_C11_ALL") != "" {
+		return 0, 1
+	}
+	seed, err := strconv.Atoi(os.Args[3])
+	if err != nil {
+		return 0, 1
+	}
+	return ((seed % k) + k) % k, k
+}
+
 func c11line(op string, vs []int) string {
 	var sb strings.Builder
 	sb.WriteString(op)
@@ -290,13 +313,18 @@ func genC11Pairs(calls ...string) func(g *G) {
 			{"1,2,3", "3,2,1"}, {"0,0,0,0", "0,0"}, {"0,0", "0,0,0,0"}, {"0,1,0,1,0", "1,0,1,0,1"}} {
 			g.Case(append([]string{"reset " + p[0] + " " + p[1]}, calls...))
 		}
-		// exhaustive: every pair over 3 symbols, lengths ≤ 5 (6 thorough), lhs up to renaming
+		// exhaustive: every pair over 3 symbols, lengths ≤ 5 (6 thorough: 1.19 M pairs),
+		// divided among the generator shards of one check run
 		maxLen := g.Scale(5, 6)
-		ls := c11words(3, maxLen, true)
-		rs := c11words(3, maxLen, false)
-		for _, l := range ls {
-			for _, r := range rs {
-				g.Case(append([]string{"reset " + c11fmtCsv(l) + " " + c11fmtCsv(r)}, calls...))
+		ws := c11words(3, maxLen, false)
+		me, k := c11shard(g)
+		idx := 0
+		for _, l := range ws {
+			for _, r := range ws {
+				if idx%k == me {
+					g.Case(append([]string{"reset " + c11fmtCsv(l) + " " + c11fmtCsv(r)}, calls...))
+				}
+				idx++
 			}
 		}
 		// random: long inputs with long common runs
@@ -326,9 +354,11 @@ func genC11Pairs(calls ...string) func(g *G) {
 func genC12Lis(g *G) {
 	calls := []string{"lis nat", "lnds nat", "lis rev", "lnds rev", "lis half", "lnds half"}
 	g.Case(append([]string{"reset -"}, calls...))
-	// exhaustive: 4 symbols, length ≤ 7 (8 thorough); under `half` 0~1 and 2~3 tie
-	for _, w := range c11words(4, g.Scale(7, 8), false) {
-		if len(w) == 0 {
+	// exhaustive: 4 symbols, length ≤ 7 (9 thorough), divided among the generator shards;
+	// under `half` 0~1 and 2~3 tie
+	me, k := c11shard(g)
+	for idx, w := range c11words(4, g.Scale(7, 9), false) {
+		if len(w) == 0 || idx%k != me {
 			continue
 		}
 		g.Case(append([]string{"reset " + c11fmtCsv(w)}, calls...))
